@@ -412,6 +412,28 @@ func (e *Engine) detLoop(fn *ssa.Function, li *loopInfo, h int, em map[*ssa.Func
 			}
 		}
 	}
+	// a loop-carried value (other than a flag) handed to a call inside the body: what the call does for this entry
+	// depends on the entries visited before it — a running counter that numbers things, an accumulated prefix
+	for bi := range body {
+		for _, in := range fn.Blocks[bi].Instrs {
+			call, ok := in.(*ssa.Call)
+			if !ok {
+				continue
+			}
+			if _, isB := call.Call.Value.(*ssa.Builtin); isB {
+				continue
+			}
+			for _, a := range call.Call.Args {
+				ph, isPhi := a.(*ssa.Phi)
+				if !isPhi || !phis[ph] || !li.headers[ph.Block().Index] || ph.Block().Index != h {
+					continue
+				}
+				if bt, ok := ph.Type().Underlying().(*types.Basic); ok && (bt.Info()&types.IsInteger != 0 || bt.Info()&types.IsString != 0) {
+					reasons = append(reasons, fmt.Sprintf("hands the loop-carried value %s to %s: the result for an entry depends on the entries before it (line %d)", ph.Comment, e.calleeLabel(call), e.prog.Fset.Position(call.Pos()).Line))
+				}
+			}
+		}
+	}
 	// first match: a value that depends on the entry at hand leaves the loop on an early exit — returned from inside the
 	// body, or carried out through a phi after a break. Which entry "the first" is depends on the iteration order.
 	// (Leaving with a constant — `return true` of an existence test — does not.)
@@ -790,4 +812,14 @@ func comparesElements(less *ssa.Function) bool {
 		}
 	}
 	return false
+}
+
+func (e *Engine) calleeLabel(c *ssa.Call) string {
+	if sc := c.Call.StaticCallee(); sc != nil {
+		return e.shortName(sc)
+	}
+	if c.Call.IsInvoke() {
+		return c.Call.Method.Name()
+	}
+	return "a function value"
 }
